@@ -26,8 +26,8 @@ const (
 	opApTryFunc
 	opApOptionFunc
 	opApFunc
-	opFlatMap // chains only
-	opMap     // chains only
+	opFlatMap    // chains only
+	opMap        // chains only
 	nApplicative = opFlatMap
 	nChain       = opMap + 1
 )
